@@ -66,6 +66,26 @@ def run(pid, tier, replay=None):
     ck.part("coverage_by_operation", list={LOPS[i]: n for i, n in enumerate(opc["list"]) if 0 < i < len(LOPS)},
             slist={SOPS[i]: n for i, n in enumerate(opc["slist"]) if 0 < i < len(SOPS)},
             que={QOPS[i]: n for i, n in enumerate(opc["que"]) if 0 < i < len(QOPS)})
+    # long random histories on two live queues (lengths to ~100): each step judged by QueTrace on its own
+    nh, no = (12, 600) if quick else (150, 1500)
+    rr = vlib.run_harness([exe, "random", str(ck.seed), str(nh), str(no), sc.path("rnd"), "14"], timeout=1800)
+    mrr = re.search(r"^SUMMARY (\{.*\})$", rr.stdout or "", re.M)
+    if rr.returncode != 0 or not mrr:
+        if rr.returncode in (97, 98, 99, -6, -11) or "Sanitizer" in (rr.stderr or ""):
+            ck.violation("crash:que:random-history", {"what": "sanitizer abort during a long random queue history", "stderr": (rr.stderr or "")[-1500:], "stdout": (rr.stdout or "")[-600:]})
+        elif (rr.stderr or "").startswith("TIMEOUT"):
+            ck.violation("hang:que:random-history", {"what": "a queue operation or a walk of the ring did not terminate during a long random history", "detail": rr.stderr})
+        else:
+            raise Broken("random queue history failed rc=%s: %s" % (rr.returncode, (rr.stderr or "")[-800:]))
+    else:
+        rfiles = vlib.drop_partial_lines(sorted(glob.glob(sc.path("rnd-*.ndjson"))))
+        rn, rbad = vlib.validate_collect(os.path.join(SPECDIR, "QueTrace.tla"), os.path.join(SPECDIR, "QueTrace.cfg"), rfiles, sc)
+        for f, idx, ev in rbad:
+            ck.violation("trace:que:%s:random-history" % ev.get("op"), {"what": "TLC rejected a step of a long random queue history", "op": ev.get("op"), "a1": ev.get("a1"), "a2": ev.get("a2"),
+                                                                          "pre_len": len(ev.get("pre", {}).get("q1", {}).get("fwd", [])), "post": str(ev.get("post"))[:600]})
+        ck.cov["traces_validated_against_impl"] += rn
+        ck.cov["evaluations"] += rn + len(rbad)
+        ck.part("random_queue_histories", histories=nh, steps_each=no, events_accepted=rn)
     missing = [LOPS[i] for i in range(1, 17) if opc["list"][i] == 0] + [SOPS[i] for i in range(1, 8) if opc["slist"][i] == 0] + \
               [QOPS[i] for i in range(1, 18) if opc["que"][i] == 0]
     if missing:
